@@ -43,7 +43,7 @@ def generate(T, tier):
     code = ["use crate::util::*;", "use rtcm_rs::rtcm_error::RtcmError as E;", ""]
     hs = []
     for k in (1, 2, 3, 8, 13, 32):
-        hs.append({"name": "c10::helper_cells_k%d" % k, "group": "main", "tier": "quick" if k in (1, 2, 8, 13) else "thorough",
+        hs.append({"name": "c10::helper_cells_k%d" % k, "group": "main", "tier": "thorough",
                    "bounds": "cell_mask_id_vec: all 2^64 satellite masks x all 2^64 cell masks, one concrete signal mask of %d bits" % k})
     hs.append({"name": "c10::helper_ids_u64", "group": "main", "tier": "quick", "bounds": "mask_to_id_vec_u64 / mask_len_u64 on all 2^64 masks"})
     hs.append({"name": "c10::helper_ids_u32", "group": "main", "tier": "quick", "bounds": "mask_to_id_vec_u32 / mask_len_u32 on all 2^32 masks"})
@@ -141,7 +141,47 @@ pub fn %(name)s() {
 }
 """ % {"name": name, "segmod": segmod, "satT": satfr["type_name"], "sigT": sigfr["type_name"], "segT": seg["type_name"], "sat_push": sat_push, "sig_push": sig_push,
        "nbytes": nbytes, "total": total, "satmask": satmask, "sigmask": sigmask, "ncm": 2 * nsig, "cellmask": bin(cellmask)[2:], "ncell": ncell, "checks": "\n    ".join(checks)})
-                q = mod in QUICK_ROWS and ((so, pi) in ((1, 1),))
+                # encode-only variant: mask bits and the position of every row tag in the bit stream
+                # (column-wise rows, ascending satellite then signal). The full encode/decode/re-encode
+                # harness above costs ~20 min for MSM1 and more for MSM4-7; this one is the quick tier.
+                def col_off(fr, tagname, nrows, base):
+                    o = base
+                    for fname, leaf, _ in fr["fields"]:
+                        if fname == tagname:
+                            return o, T.field[leaf]["len"]
+                        o += nrows * T.field[leaf]["len"]
+                    raise Exception("tag")
+                so_off, so_w = col_off(satfr, st_name, 2, 96 + 2 * nsig)
+                sg_off, sg_w = col_off(sigfr, sg_name, ncell, 96 + 2 * nsig + 2 * sat_w)
+                tag_checks = ["assert!(get_bits(&buf, %d, %d) == %d);" % (so_off + i * so_w, so_w, i + 1) for i in range(2)]
+                tag_checks += ["assert!(get_bits(&buf, %d, %d) == %d);" % (sg_off + i * sg_w, sg_w, i + 1) for i in range(ncell)]
+                ename = "rowsenc_%s_o%d_p%d" % (mod, so, pi)
+                code.append("""#[kani::proof]
+#[kani::unwind(66)]
+pub fn %(name)s() {
+    use rtcm_rs::verif_hooks::codec::%(segmod)s as c;
+    let mut sats = rtcm_rs::util::DataVec::<rtcm_rs::msg::%(satT)s, 64>::new();
+    %(sat_push)s
+    let mut sigs = rtcm_rs::util::DataVec::<rtcm_rs::msg::%(sigT)s, 64>::new();
+    %(sig_push)s
+    let v = rtcm_rs::msg::%(segT)s { satellite_data: sats, signal_data: sigs };
+    let mut buf = [0u8; %(nbytes)d];
+    let off = {
+        let mut asm = Assembler::new(&mut buf, 0);
+        assert!(c::encode(&mut asm, &v).is_ok());
+        asm.offset()
+    };
+    assert!(off == %(total)d);
+    assert!(get_bits(&buf, 0, 64) == 0x%(satmask)x);
+    assert!(get_bits(&buf, 64, 32) == 0x%(sigmask)x);
+    assert!(get_bits(&buf, 96, %(ncm)d) == 0b%(cellmask)s);
+    %(tags)s
+}
+""" % {"name": ename, "segmod": segmod, "satT": satfr["type_name"], "sigT": sigfr["type_name"], "segT": seg["type_name"], "sat_push": sat_push, "sig_push": sig_push,
+       "nbytes": nbytes, "total": total, "satmask": satmask, "sigmask": sigmask, "ncm": 2 * nsig, "cellmask": bin(cellmask)[2:], "tags": "\n    ".join(tag_checks)})
+                hs.append({"name": "c10gen::%s" % ename, "group": "rowsenc", "tier": "quick" if (mod in QUICK_ROWS and (so, pi) == (1, 1)) else "thorough",
+                           "bounds": "%s encode only: satellites listed as %s, cells in caller order %s: mask bits and the bit position of every row tag (ascending satellite, then signal)" % (mod, sat_order, perm)})
+                q = False
                 hs.append({"name": "c10gen::%s" % name, "group": "rows", "tier": "quick" if q else "thorough",
                            "bounds": "%s: satellites {3,40} listed as %s, cells {(3,%d),(3,%d),(40,%d)} in caller order %s, rows tagged through %s/%s" % (mod, sat_order, sigA[0], sigB[0], sigB[0], perm, st_name, sg_name)})
         # error classes and symbolic-id masks once per constellation, on its cheapest (first) type
@@ -254,7 +294,8 @@ pub fn %(name)s() {
     return {
         "harnesses": hs,
         "groups": {"main": {"features": ["c10"], "timeout_s": 2400},
-                   "rows": {"features": ["c10"], "est_gb": 5, "timeout_s": 2400},
+                   "rows": {"features": ["c10"], "est_gb": 8, "timeout_s": 3000},
+                   "rowsenc": {"features": ["c10"], "est_gb": 6, "timeout_s": 2400},
                    "err": {"features": ["c10"], "est_gb": 5, "timeout_s": 2400},
                    "masks": {"features": ["c10"], "est_gb": 6, "timeout_s": 3000}},
         "level": "model_checking",
